@@ -36,3 +36,9 @@ fixed("C04", "5666341", "gc-flush-first/(*primaryGC).gc/flush-before-handover",
       "D12: freelist handed over before the primary was flushed")
 fixed("C04", "150dfab", "gc-not-current/(*mhprimary.primaryGC).gc/current-read-under-flushLock",
       "D8a: primary GC loop bound read MultihashPrimary.fileNum without flushLock")
+known("C03", "commit-atomicity/(*store.Store).commit/vs-(*store.Store).Put",
+      "KF-3a: Store.commit flushes the primary, then the index; a Put(K,v2) of a key flushed with v1 that lands between the two flushes gets its index record written while its primary bytes are still pooled; crash before the next primary flush => reopen: read error, entry dropped, Get(K) absent although K was present at the last completed flush and never removed (repro/kf3_put_between_flushes_test.go.txt, schedule emulated with Primary().Flush(); Put; Index().Flush(); directory copy). Repair needs either a store-level lock that blocks writers for the whole flush or a two-phase index flush (capture pool, flush primary, write pool): not a small patch")
+known("C03", "commit-atomicity/(*store.Store).commit/vs-(*mhprimary.primaryGC).reapRecords",
+      "KF-3b: same window, writer = primary-GC relocation (primary Put of the copy + index re-point between commit's primary flush and index flush); crash => the relocated key, present at the last completed flush, reads absent (second test in repro/kf3_put_between_flushes_test.go.txt)")
+known("C03", "gc-handover-durable/(*primaryGC).gc/index-flushed-before-handover",
+      "KF-4: a primary-GC cycle hands the freelist over (ToGC flushes the freelist pool itself) and marks the superseded record deleted although the index update that superseded it is not flushed: Put(K,v1); Flush; Put(K,v2); GC; crash (directory copy) => reopen: on-disk index names the deleted v1 record, Get(K) absent although K was present at the last completed flush and never removed (repro/kf4_gc_applies_freelist_before_index_flush_test.go.txt; sequential, no concurrency). Repair needs the collector to flush the index first (a store-level commit callback: API change) or to hand over only durable entries, which in turn needs KF-2's compare-and-swap to stay safe")
